@@ -60,6 +60,8 @@ def generate(rng, tier):
                         setters.append("SS 0 %s 0 %s" % (hx(p), hx(rng.choice([b"ok", b"!veto"]))))
                     elif o.ty == "float":
                         setters.append("SF 0 %s 0 %s" % (hx(p), dbits(2.5)))
+                    elif o.ty == "bool":
+                        setters.append("SB 0 %s 0 %d" % (hx(p), rng.randint(0, 1)))
             # every syntactic form of an assignment for the options that carry (or get) a callback
             forms = []
             for p, o in allo:
@@ -102,9 +104,9 @@ def generate(rng, tier):
     # callbacks registered by path AFTER instances of the section exist: every instance created later - a new title, the same
     # title again (which replaces), an untitled one more, the re-created single section - runs them; so does a by-name setter
     lschema = [Opt("m", "sec", gen.MULTI | gen.TITLE, None, "-", [Opt("x", "int", 0, 0), Opt("s", "str", 0, None)]),
-               Opt("n", "sec", gen.MULTI, None, "-", [Opt("x", "int", 0, 0)]), Opt("one", "sec", 0, None, "-", [Opt("x", "int", 0, 0)]), Opt("i", "int", 0, 0)]
+               Opt("n", "sec", gen.MULTI, None, "-", [Opt("x", "int", 0, 0)]), Opt("one", "sec", 0, None, "-", [Opt("x", "int", 0, 0), Opt("bb", "bool", 0, True)]), Opt("i", "int", 0, 0), Opt("b", "bool", 0, False)]
     first = b"m a { x = 1 }\nn { x = 2 }\none { x = 3 }\n"
-    regs_l = [["VF 0 %s v" % hx("m|x")], ["VF 0 %s v" % hx("n|x")], ["VF 0 %s v" % hx("one|x")], ["VF 0 %s w" % hx("m|x"), "VF 0 %s w" % hx("n|x")],
+    regs_l = [["VF 0 %s w" % hx("b"), "VF 0 %s w" % hx("one|bb")], ["VF 0 %s v" % hx("m|x")], ["VF 0 %s v" % hx("n|x")], ["VF 0 %s v" % hx("one|x")], ["VF 0 %s w" % hx("m|x"), "VF 0 %s w" % hx("n|x")],
               ["VF 0 %s v" % hx("m|x"), "VF 0 %s v" % hx("m|s"), "VF 0 %s v" % hx("n|x"), "VF 0 %s v" % hx("one|x"), "VF 0 %s v" % hx("i")]]
     laters = [b"m b { x = 666 }\ni = 1\n", b"m a { x = 666 }\ni = 2\n", b"n { x = 666 }\ni = 3\n", b"one { x = 666 }\ni = 4\n", b"m c { s = bad }\n",
               b"m b { x = 5 } m c { x = 6 } n { x = 7 }\ni = 666\n"]
@@ -113,6 +115,7 @@ def generate(rng, tier):
             for pre in ([first], [], [first, b"m z { }\n"]):
                 lines = schema_lines(lschema) + ["X 0 0"] + ["PB 0 " + hx(t) for t in pre] + rg + ["PB 0 " + hx(lt), "D 0",
                          "AT 0 %s %s" % (hx("m"), hx("late")), "SI 0 %s 0 -4" % hx("m=late|x"), "SI 0 %s 0 5000" % hx("m=late|x"), "SI 0 %s 0 -4" % hx("m=a|x"),
+                         "SB 0 %s 0 1" % hx("b"), "SB 0 %s 0 0" % hx("one|bb"), "SB 0 %s 0 0" % hx("b"),
                          "RS 0 %s" % hx("one"), "PB 0 " + hx(b"one { x = 666 }\n"), "D 0", "F 0"]
                 cases.append(Case("late%d" % n, lines, {"k": None, "text": lt, "nregs": len(rg)}))
                 n += 1
